@@ -423,3 +423,106 @@ Example C14_second_connection_example :
   map (fun e : N * bool * N => (snd (fst e), snd e)) (RibModel.rib_query (E2eModel.ru_rib (E2eModel.es_rib (E2eModel.ds_e st))) 0 1) = [(true, 3%N)] /\
   map (fun e : N * bool * N => (snd (fst e), snd e)) (RibModel.rib_query (E2eModel.ru_rib (E2eModel.es_rib (E2eModel.ds_e st))) 0 2) = [(true, 4%N)].
 Proof. exact E2eProofs.second_connection_example. Qed.
+
+(* ---- one id per router and per peer over ALL histories of the e2e world with second connections (E2e/E2eIdsProofs.v) ----
+   [d_accepts st0 h]: every connection the accept loop took along h - first connections, second connections before the
+   clean-up (DSecond), re-connections - as (router address, id handed: the id of the session table after the accept).
+   [d_peerups st0 h]: every Peer Up along h as (router id of the session, per-peer header, id the session's peer table holds
+   for that header after the message). Histories: every list of d-world operations - connect, second connection, old connection
+   ends, every BMP message, disconnect, BGP sessions (which draw ids from the same counter), script / unit edits, reloads.
+   Only hypothesis: the history is shorter than the u32 counter (no wrap: C14_wrap_refuted). *)
+From RV Require E2e.E2eIdsProofs.
+
+Theorem C14_one_id_per_router_over_histories : forall s0 n0 (h : list E2eModel.dop),
+  N.of_nat (length h) < two32 - 2 ->
+  let st0 := E2eModel.d_init s0 n0 in
+  let st := E2eModel.d_run st0 h in
+  let r := PipeModel.w_reg (E2eModel.es_w (E2eModel.ds_e st)) in
+  let u := PipeModel.w_unit (E2eModel.es_w (E2eModel.ds_e st)) in
+  let acc := E2eIdsProofs.d_accepts st0 h in
+  let ups := E2eIdsProofs.d_peerups st0 h in
+  u = 1 /\
+  (* routers: EXACTLY ONE register entry per (unit, address) that ever connected, and every connection accepted from that
+     address was handed its id; the unit lists it as a child *)
+  (forall k id, (k, id) ∈ acc ->
+     reg_find_routers r (PipeModel.router_query u k) = [id] /\ id ∈ reg_ids_for_parent r u) /\
+  (* ... one id per address, one address per id *)
+  (forall k id k' id', (k, id) ∈ acc -> (k', id') ∈ acc -> (k = k' <-> id = id')) /\
+  (* ... ids_for_parent(unit) lists each ONCE, and lists nothing but the routers that connected *)
+  NoDup (reg_ids_for_parent r u) /\
+  (forall id, id ∈ reg_ids_for_parent r u <-> exists k, (k, id) ∈ acc) /\
+  (* ... the live sessions and the parked old connections are among them *)
+  (forall k rid s, E2eModel.d_live st k = Some (rid, s) -> (k, rid) ∈ acc) /\
+  (forall k rid, E2eModel.d_old st k = Some rid -> (k, rid) ∈ acc) /\
+  (* peers: EXACTLY ONE entry per (router id, address, AS, RIB view) - the register's identity of a peer - that a Peer Up
+     named, the id every such Peer Up got (in any session of that router: before / after a second connection, a reconnect) *)
+  (forall rid p id, (rid, p, id) ∈ ups ->
+     (exists k, (k, rid) ∈ acc) /\
+     reg_find_peers r (BmpModel.peer_query rid p) = [id] /\ id ∈ reg_ids_for_parent r rid) /\
+  (* ... two Peer Ups under one router got the same id EXACTLY when their headers agree in address, AS and RIB view: one peer
+     never has two ids; headers differing only in BGP id / policy flag / distinguisher SHARE one (known finding C02-1) *)
+  (forall rid p id p' id', (rid, p, id) ∈ ups -> (rid, p', id') ∈ ups ->
+     (id = id' <-> BmpModel.peer_query rid p = BmpModel.peer_query rid p')) /\
+  (* ... ids_for_parent(router) lists each once and nothing but the peers that came up *)
+  (forall rid, NoDup (reg_ids_for_parent r rid)) /\
+  (forall rid id, (exists k, (k, rid) ∈ acc) -> (id ∈ reg_ids_for_parent r rid <-> exists p, (rid, p, id) ∈ ups)) /\
+  (* ... and what the peer table of a live session holds is that entry's id *)
+  (forall k rid s p pe, E2eModel.d_live st k = Some (rid, s) -> BmpModel.sm_peers s !! p = Some pe ->
+     reg_find_peers r (BmpModel.peer_query rid p) = [BmpModel.pe_id pe]).
+Proof. exact E2eIdsProofs.one_id_per_router_over_histories. Qed.
+Print Assumptions C14_one_id_per_router_over_histories.
+
+(* ... so the hypothesis of C14_reconnect_before_cleanup_keeps_id is met after EVERY history: a router that is connected and
+   has no parked connection opens a second one - same id, old connection parked under it, register and the unit's children
+   unchanged, still one entry *)
+Theorem C14_reconnect_before_cleanup_keeps_id_over_histories : forall s0 n0 (h : list E2eModel.dop) k rid s,
+  N.of_nat (length h) < two32 - 2 ->
+  let st := E2eModel.d_run (E2eModel.d_init s0 n0) h in
+  E2eModel.d_live st k = Some (rid, s) -> E2eModel.d_old st k = None ->
+  let st' := E2eModel.d_step st (E2eModel.DSecond k) in
+  E2eModel.d_rid st' k = Some rid /\ E2eModel.d_old st' k = Some rid /\
+  PipeModel.w_reg (E2eModel.es_w (E2eModel.ds_e st')) = PipeModel.w_reg (E2eModel.es_w (E2eModel.ds_e st)) /\
+  reg_find_routers (PipeModel.w_reg (E2eModel.es_w (E2eModel.ds_e st')))
+                   (PipeModel.router_query (PipeModel.w_unit (E2eModel.es_w (E2eModel.ds_e st'))) k) = [rid] /\
+  reg_ids_for_parent (PipeModel.w_reg (E2eModel.es_w (E2eModel.ds_e st'))) (PipeModel.w_unit (E2eModel.es_w (E2eModel.ds_e st')))
+  = reg_ids_for_parent (PipeModel.w_reg (E2eModel.es_w (E2eModel.ds_e st))) (PipeModel.w_unit (E2eModel.es_w (E2eModel.ds_e st))).
+Proof. exact E2eIdsProofs.reconnect_before_cleanup_keeps_id_over_histories. Qed.
+Print Assumptions C14_reconnect_before_cleanup_keeps_id_over_histories.
+
+(* the records are complete: the accept loop's every connection is in [d_accepts] with the id find-or-register gave it -
+   in particular a second connection of a connected router -, and every Peer Up a session in its dump / update phase
+   receives is in [d_peerups] *)
+Theorem C14_accept_recorded : forall w k,
+  E2eIdsProofs.w_accept_of w (PipeModel.WConnect k) =
+  [(k, fst (find_or_register router_match (PipeModel.w_reg w) (PipeModel.router_query (PipeModel.w_unit w) k)))].
+Proof. exact E2eIdsProofs.accept_recorded. Qed.
+Print Assumptions C14_accept_recorded.
+
+Theorem C14_second_connection_recorded : forall st k,
+  E2eModel.d_live st k <> None -> E2eModel.d_old st k = None ->
+  exists id, E2eIdsProofs.d_accept_of st (E2eModel.DSecond k) = [(k, id)] /\
+             E2eModel.d_rid (E2eModel.d_step st (E2eModel.DSecond k)) k = Some id.
+Proof. exact E2eIdsProofs.second_connection_recorded. Qed.
+Print Assumptions C14_second_connection_recorded.
+
+Theorem C14_peer_up_recorded : forall w k rid s p e,
+  PipeModel.w_routers w !! k = Some (rid, s) ->
+  (BmpModel.sm_phase s = BmpModel.PDump \/ BmpModel.sm_phase s = BmpModel.PUpd) ->
+  exists id, E2eIdsProofs.w_peerup_of w (PipeModel.WMsg k (BmpModel.MPeerUp p e)) = [(rid, p, id)].
+Proof. exact E2eIdsProofs.peer_up_recorded. Qed.
+Print Assumptions C14_peer_up_recorded.
+
+(* non-vacuity: router 0 connects, Peer Up x2; router 5 and a BGP session take ids; router 0 connects a SECOND time, its peers
+   come up again - one under another BGP id / policy flag / distinguisher (shares id 3: C02-1) -; the old connection ends; a
+   reload; disconnect; reconnect; a peer again: router 0 is handed id 2 three times, its peers keep 3 and 4 *)
+Example C14_one_id_per_router_example :
+  let st0 := E2eModel.d_init E2eModel.SNone 0 in
+  let st := E2eModel.d_run st0 E2eIdsProofs.ids_example in
+  N.of_nat (length E2eIdsProofs.ids_example) < two32 - 2 /\
+  E2eIdsProofs.d_accepts st0 E2eIdsProofs.ids_example = [(0, 2); (5, 5); (0, 2); (0, 2)] /\
+  E2eIdsProofs.d_peerups st0 E2eIdsProofs.ids_example =
+    [(2, E2eIdsProofs.ids_pA, 3); (2, E2eIdsProofs.ids_pB, 4); (2, E2eIdsProofs.ids_pA, 3);
+     (2, E2eIdsProofs.ids_pA', 3); (2, E2eIdsProofs.ids_pB, 4)] /\
+  reg_ids_for_parent (E2eIdsProofs.d_reg st) 1 = [5; 2] /\ reg_ids_for_parent (E2eIdsProofs.d_reg st) 2 = [3; 4] /\
+  serial (E2eIdsProofs.d_reg st) = 7 /\ E2eModel.d_rid st 0 = Some 2.
+Proof. exact E2eIdsProofs.ids_example_facts. Qed.
